@@ -135,6 +135,9 @@ func profileConfig(p string, seed uint64) RunConfig {
 			c.KernLatency = pick(r, 40, 150)
 		}
 	}
+	if r.IntN(5) == 0 {
+		c.FQDNMask = 1 + r.IntN(15) // some peers name themselves by FQDN
+	}
 	return c
 }
 
@@ -193,7 +196,7 @@ func newGen(s *Sim) *Gen {
 		}
 	case "C13", "C14":
 		g.canonical = true
-		g.w = map[string]int{"est": 5, "kbuf": 14, "kbufburst": 2, "kbufbad": 2, "farflip": 12, "mod": 3, "del": 2, "rmpdr": 2, "adv": 1, "reest": 3}
+		g.w = map[string]int{"est": 5, "kbuf": 14, "kbufburst": 2, "kbufbad": 2, "farflip": 12, "mod": 3, "del": 2, "rmpdr": 2, "adv": 1, "reest": 3, "reassoc": 2, "ansseid0": 1}
 		if s.cfg.faultOn("gtpu") {
 			g.w["gtpuerr"] = 2
 		}
@@ -208,7 +211,7 @@ func newGen(s *Sim) *Gen {
 	case "C17":
 		g.mode = "clean"
 		g.perioOK = true
-		g.w = map[string]int{"hb": 2, "est": 8, "mod": 8, "del": 2, "dup": 3, "krep": 6, "kbuf": 4, "adv": 5, "ans": 3}
+		g.w = map[string]int{"hb": 2, "est": 8, "mod": 8, "del": 2, "dup": 3, "krep": 6, "kbuf": 4, "adv": 5, "ans": 3, "detach": 5, "farflip": 2}
 	case "C18":
 		g.perioOK = true
 		g.mass = 1
@@ -1000,6 +1003,19 @@ func (g *Gen) one() (Action, bool) {
 		return Action{Op: op, KRep: items}, true
 	case "kbuf", "kbufbad", "kbufnocp":
 		return g.kbuf()
+	case "detach":
+		k := &KBufIntent{Slot: -1, SEID: uint64(1 + g.intn(6)), PDR: uint16(1 + g.intn(4)), Action: uint16(pick(g.rng, 4, 4, 12)), Len: 8 + g.intn(64), Count: 1 + g.intn(3)}
+		if m, sl, x := g.anyLive(); x != nil && g.chance(0.5) {
+			k.Slot, k.SMF = sl, m.Idx
+			if pdrs := sortedRefs(x.Req, "pdr"); len(pdrs) > 0 {
+				k.PDR = uint16(pdrs[g.intn(len(pdrs))])
+			}
+		}
+		d := 1 + g.intn(120) // lands inside one of the next event-loop turns
+		if g.chance(0.4) {
+			d = (1 + g.intn(3000)) * 1000000
+		}
+		return Action{Op: "detach", KBuf: k, N: d}, true
 	case "kbufburst":
 		// a burst well beyond a few packets: around and beyond plausible queue sizes
 		a, ok := g.kbuf()
